@@ -55,6 +55,11 @@ add("C05",
     "Partial. gjson/pretty/sjson/rtree/strconv are external assumed contracts (A-GJSON, A-RTREE). parseJSONLineStringCoords/parseJSONPolygonCoords trusted. Not under contract: LineString/MultiLineString writers (a *Line handed out as Series is outside the Series model), EmptySpatial (zero-field struct), the index builders (rTree/rRect insert/split, qNode: trusted, bounded index suite). WriteInv is established by the constructors under contract; for parsed objects it is a stated precondition. The bounded lineline suite (watchdog per call) stands in for Line.ContainsLine termination and reports F3 as a known finding.",
     "DESIGN.md §5 C05", bounded="lineline,index")
 
+add("C07",
+    "Proved clauses only (all relative to the assumed gjson accessors and the trusted coordinate decoders): Parse returns (object,nil) or (nil,error) for every text and every ParseOptions, rejects the empty text, and terminates (measure over the text length); an accepted LineString has at least two positions; an accepted Polygon has an exterior ring, every ring has at least four positions and first == last (the rings of the object are position-for-position the decoded ones: model clauses of NewLine/NewPoly/newRing); a Polygon parses to *Polygon or (AllowRects) *Rect; a decoded position keeps at most two extra ordinates and has exactly dims values; the nine type parsers return the kind they are named after. NOT proved: that the decoded numbers equal those of a standard JSON decoder, duplicate-member semantics, the type-member rules, trailing-text rejection (gjson.Valid is an uninterpreted dependency), and the 'is accepted' direction.",
+    "PARTIAL: this is the subset of the property that is expressible as postconditions of the Go parsers; the text-level half (what gjson returns for a given text) is assumed (A-GJSON), so the check decides the structural rejection rules implemented in Go, not the JSON reading itself.",
+    "DESIGN.md §5 C07")
+
 add("C08",
     "Proved: toGeometryOpts maps ParseOptions to index options only; RequireValid: Parse/parseJSON return a valid object under RequireValid for Point, SimplePoint, LineString, Polygon, Rect, MultiPoint, MultiLineString, MultiPolygon (parseJSONMultiPoint fully under contract incl. frames - this is the obligation that failed before fix 3b4853f); the Circle recognition path of parseJSONFeature is under contract for both point representations. Index independence is carried by the protocol contracts that this check also discharges (compressed segment searches and number codec of C04, collection.Search on both paths and parseInitRectIndex of C10: callers see only the set-based protocol); no relational two-run statement is generated. RequireValid through Feature/GeometryCollection/FeatureCollection (needs a two-state frame over the object tree).",
     "Partial: single-run postconditions only; the relational (two ParseOptions, same document) reading of the property is not expressible as one function contract in this framework. parse*Coords helpers trusted.",
@@ -99,7 +104,7 @@ add("C19",
     "A-FLOAT/A-DIV/A-NUDGE/A-SCALE.",
     "DESIGN.md §5 C19")
 
-order = ["C01","C02","C03","C04","C05","C08","C09","C10","C11","C12","C13","C16","C17","C18","C19"]
+order = ["C01","C02","C03","C04","C05","C07","C08","C09","C10","C11","C12","C13","C16","C17","C18","C19"]
 checks.sort(key=lambda c: order.index(c["property_id"]))
 
 manifest = {
@@ -123,7 +128,6 @@ manifest = {
     "checks": checks,
     "not_applicable": [
         {"property_id": "C06", "reason": "byte-level inverse through gjson/pretty/strconv: no contract within reach expresses it (DESIGN §5 C06)"},
-        {"property_id": "C07", "reason": "accept/reject boundary and decoded values are defined relative to a standard JSON decoder; gjson (the parser actually used) is an external dependency outside the verified subset, and a contract strong enough to state 'decodes exactly what the document says' would be a full model of gjson - a model, not the code. Only structural postconditions of the parse layer are proved (under C05/C08)."},
         {"property_id": "C14", "reason": "binary64 trigonometry with tolerances: outside contract-based deductive verification (machine floating point is not modelled; only exact/order/abstract arithmetic modes) (DESIGN §5 C14)"},
         {"property_id": "C15", "reason": "binary64 trigonometry with tolerances: outside contract-based deductive verification (DESIGN §5 C15)"},
     ],
